@@ -1,6 +1,7 @@
 package main
 
 import (
+	"strings"
 	"go/ast"
 	"go/token"
 	"go/types"
@@ -307,6 +308,40 @@ func runC21(c *Ctx) {
 			f := c.NewFlow(fn)
 			w := f.MustFollow(f.Find(func(n ast.Node) bool { return n == ast.Node(u.Call) }), f.CallTo(rebuild), nil)
 			c.Check(w == nil, "spawnRoutees@"+u.EnclName()+"⇒rebuild", "spawning routees is followed by rebuildHashRing", u.Where(c.P), f.describe(w))
+		}
+		// the send itself: a message with a key goes to the ring's member for that key whenever that member is a
+		// registered, running routee; a random routee is chosen only for an empty key, an unknown member or a member
+		// that is not running (anything else sends equal keys to different routees while membership is unchanged)
+		{
+			rh := c.Func("actor", "router.routeByConsistentHash")
+			hf := c.NewFlow(rh)
+			hinfo := hf.Info
+			random := func(n ast.Node) bool {
+				call, ok := n.(*ast.CallExpr)
+				if !ok {
+					return false
+				}
+				cal := callee(hinfo, call)
+				return cal != nil && cal.Pkg() != nil && strings.HasPrefix(cal.Pkg().Path(), "math/rand")
+			}
+			excuse := map[Edge]bool{}
+			for e := range hf.FactEdges(func(cm cmp) bool { sv, isS := strConst(hinfo, cm.R); return cm.Op == token.EQL && isS && sv == "" }) {
+				excuse[e] = true // key == ""
+			}
+			oks := commaOkLocals(hinfo, rh.Decl.Body)
+			// member not registered or not running: the false edge of a condition made only of these two tests
+			for e := range hf.AllFalseEdgesExpr(func(e ast.Expr) bool {
+				if id, ok := ast.Unparen(e).(*ast.Ident); ok && oks[hinfo.ObjectOf(id)] {
+					return true
+				}
+				return isCallNamed(hinfo, e, "IsRunning")
+			}) {
+				excuse[e] = true
+			}
+			w := hf.search(searchSpec{avoidEdges: excuse, target: random})
+			c.Check(w == nil && len(excuse) >= 2 && len(hf.Find(random)) > 0, "hash-send/random-only-when-no-owner", "a keyed message is sent to a random routee only when the key is empty, the ring's member is not registered or it is not running", c.P.Pos(rh.Decl.Pos()), hf.describe(w))
+			lookup := hf.CallTo(c.FuncObj("actor", "consistentHashRing.lookup"))
+			c.Check(len(hf.Find(lookup)) == 1, "hash-send/one-lookup", "the owner of a key is looked up on the ring once", c.P.Pos(rh.Decl.Pos()), "")
 		}
 		// ring.set sorts keys; lookup wraps and is read-only
 		set := c.Func("actor", "consistentHashRing.set")
